@@ -885,6 +885,17 @@ impl StateMachine for RocksDBStateMachine {
             }
         }
 
+        // The applied index travels in the same atomic write as the data it describes: after a
+        // crash the reported index can then never lag behind (or run ahead of) the data, so the
+        // committed suffix replayed by Raft never re-applies an entry (CAS is not idempotent).
+        if let Some(highest) = highest_index_entry {
+            let meta_cf = db.cf_handle(STATE_MACHINE_META_CF).ok_or_else(|| {
+                StorageError::DbError("State machine meta CF not found".to_string())
+            })?;
+            batch.put_cf(&meta_cf, LAST_APPLIED_INDEX_KEY, highest.index.to_be_bytes());
+            batch.put_cf(&meta_cf, LAST_APPLIED_TERM_KEY, highest.term.to_be_bytes());
+        }
+
         db.write_wbwi(&batch).map_err(|e| StorageError::DbError(e.to_string()))?;
 
         if let Some(highest) = highest_index_entry {
